@@ -14,7 +14,7 @@
 (***************************************************************************)
 EXTENDS Naturals, Sequences, FiniteSets, TLC
 
-Comps == {"", ".", "..", "...", " ", ".git", ".GIT", ".Git", ".git ", ".git.", ".git. .", "git~1", "GIT~1", "git~2", "git~1x", ".git~1", ".git::$INDEX_ALLOCATION", ".git:x", ".gitx", ".gi", "a\\b", "..\\x", ".git\\x", "a\\.git\\x", "a\\git~1", "\\abs", "C:", "C:x", "C:\\x", ".g{ZWNJ}it", "{ZWNJ}.git", ".GIT{ZWNJ}", "{FF}", "~", "a", "d", "e", "x", "h", "of", "od", "ol", "p", "repo", "config", "hooks", "tmp", "repo-x", "f"}
+Comps == {"", ".", "..", "...", " ", ".git", ".GIT", ".Git", ".git ", ".git.", ".git. .", "git~1", "GIT~1", "git~2", "git~1x", ".git~1", ".git::$INDEX_ALLOCATION", ".git:x", ".gitx", ".gi", "a\\b", "..\\x", ".git\\x", "a\\.git\\x", "a\\git~1", "\\abs", "C:", "C:x", "C:\\x", ".g{ZWNJ}it", "{ZWNJ}.git", ".GIT{ZWNJ}", "{FF}", "~", "a", "d", "e", "x", "h", "of", "od", "ol", "p", "repo", "config", "hooks", "tmp", "repo-x", "f", "b", "c", "0", "z"}
 Chars ==
     ("" :> <<>>) @@
     ("." :> <<".">>) @@
@@ -64,7 +64,11 @@ Chars ==
     ("hooks" :> <<"h", "o", "o", "k", "s">>) @@
     ("tmp" :> <<"t", "m", "p">>) @@
     ("repo-x" :> <<"r", "e", "p", "o", "-", "x">>) @@
-    ("f" :> <<"f">>)
+    ("f" :> <<"f">>) @@
+    ("b" :> <<"b">>) @@
+    ("c" :> <<"c">>) @@
+    ("0" :> <<"0">>) @@
+    ("z" :> <<"z">>)
 Rank ==
     ("" :> 0) @@
     (" " :> 1) @@
@@ -86,35 +90,39 @@ Rank ==
     (".gitx" :> 17) @@
     (".git~1" :> 18) @@
     (".g{ZWNJ}it" :> 19) @@
-    ("C:" :> 20) @@
-    ("C:\\x" :> 21) @@
-    ("C:x" :> 22) @@
-    ("GIT~1" :> 23) @@
-    ("\\abs" :> 24) @@
-    ("a" :> 25) @@
-    ("a\\.git\\x" :> 26) @@
-    ("a\\b" :> 27) @@
-    ("a\\git~1" :> 28) @@
-    ("config" :> 29) @@
-    ("d" :> 30) @@
-    ("e" :> 31) @@
-    ("f" :> 32) @@
-    ("git~1" :> 33) @@
-    ("git~1x" :> 34) @@
-    ("git~2" :> 35) @@
-    ("h" :> 36) @@
-    ("hooks" :> 37) @@
-    ("od" :> 38) @@
-    ("of" :> 39) @@
-    ("ol" :> 40) @@
-    ("p" :> 41) @@
-    ("repo" :> 42) @@
-    ("repo-x" :> 43) @@
-    ("tmp" :> 44) @@
-    ("x" :> 45) @@
-    ("~" :> 46) @@
-    ("{ZWNJ}.git" :> 47) @@
-    ("{FF}" :> 48)
+    ("0" :> 20) @@
+    ("C:" :> 21) @@
+    ("C:\\x" :> 22) @@
+    ("C:x" :> 23) @@
+    ("GIT~1" :> 24) @@
+    ("\\abs" :> 25) @@
+    ("a" :> 26) @@
+    ("a\\.git\\x" :> 27) @@
+    ("a\\b" :> 28) @@
+    ("a\\git~1" :> 29) @@
+    ("b" :> 30) @@
+    ("c" :> 31) @@
+    ("config" :> 32) @@
+    ("d" :> 33) @@
+    ("e" :> 34) @@
+    ("f" :> 35) @@
+    ("git~1" :> 36) @@
+    ("git~1x" :> 37) @@
+    ("git~2" :> 38) @@
+    ("h" :> 39) @@
+    ("hooks" :> 40) @@
+    ("od" :> 41) @@
+    ("of" :> 42) @@
+    ("ol" :> 43) @@
+    ("p" :> 44) @@
+    ("repo" :> 45) @@
+    ("repo-x" :> 46) @@
+    ("tmp" :> 47) @@
+    ("x" :> 48) @@
+    ("z" :> 49) @@
+    ("~" :> 50) @@
+    ("{ZWNJ}.git" :> 51) @@
+    ("{FF}" :> 52)
 
 (***************************************************************************)
 (* helpers on character sequences                                          *)
